@@ -40,6 +40,7 @@ type op struct {
 	HS    bool   `json:"hs,omitempty"` // save a hard state together with the entries
 	Index uint64 `json:"index,omitempty"`
 	Tail  int    `json:"tail,omitempty"`  // snapshot install carries this many entries after it
+	NoHS  bool   `json:"no_hs,omitempty"` // snap: the received snapshot comes with an EMPTY hard state (the stored one must survive)
 	Reuse bool   `json:"reuse,omitempty"` // delete: keep using the same store object (what partition.unloadRaft/loadRaft does)
 }
 
@@ -50,6 +51,9 @@ func (o op) String() string {
 	case "hs":
 		return fmt.Sprintf("g%d.Save(hardstate t%d)", o.G, o.Term)
 	case "snap":
+		if o.NoHS {
+			return fmt.Sprintf("g%d.Save(empty hard state, received snapshot @%d t%d, +%d entries)", o.G, o.Index, o.Term, o.Tail)
+		}
 		return fmt.Sprintf("g%d.Save(received snapshot @%d t%d, +%d entries)", o.G, o.Index, o.Term, o.Tail)
 	case "create":
 		return fmt.Sprintf("g%d.CreateSnapshot(%d)", o.G, o.Index)
@@ -170,7 +174,11 @@ func (w *world_) apply(o op) (key, desc string) {
 		for i := 0; i < o.Tail; i++ {
 			es = append(es, entry(o.Index+1+uint64(i), o.Term))
 		}
-		if err := g.w.Save(raftpb.HardState{Term: o.Term, Vote: 1, Commit: o.Index}, es, snap); err != nil {
+		shs := raftpb.HardState{Term: o.Term, Vote: 1, Commit: o.Index}
+		if o.NoHS {
+			shs = raftpb.HardState{}
+		}
+		if err := g.w.Save(shs, es, snap); err != nil {
 			return "save-error", fmt.Sprintf("%v: %v", o, err)
 		}
 		// reference order prescribed by the raft library: snapshot first, then entries
@@ -178,7 +186,9 @@ func (w *world_) apply(o op) (key, desc string) {
 			return "", "" // cannot happen: alphabet only issues newer snapshots
 		}
 		g.ref.Append(es)
-		g.ref.SetHardState(raftpb.HardState{Term: o.Term, Vote: 1, Commit: o.Index})
+		if !o.NoHS {
+			g.ref.SetHardState(raftpb.HardState{Term: o.Term, Vote: 1, Commit: o.Index})
+		}
 		g.warm = true
 	case "create":
 		data := []byte(fmt.Sprintf("local%d", o.Index))
@@ -435,6 +445,7 @@ func (w *world_) enabled(multi bool) []op {
 				t = 1
 			}
 			out = append(out, op{G: gi, Kind: "snap", Index: last + 2, Term: t})
+			out = append(out, op{G: gi, Kind: "snap", Index: last + 2, Term: t, NoHS: true})
 			if last+3 <= maxIndex {
 				out = append(out, op{G: gi, Kind: "snap", Index: last + 2, Term: t, Tail: 1})
 			}
@@ -610,9 +621,10 @@ func main() {
 		states += phStates
 		transitions += phTrans
 	}
-	diskEvals := 0
+	diskEvals, longEvals := 0, 0
 	if onlyPhase == nil || onlyPhase.MatchString("single-group") {
 		diskEvals = onDiskLargeEntries(run)
+		longEvals = longLog(run, world.MemDB())
 	}
 	run.Assumptions = []string{
 		"alphabet = calls raft may legally issue: contiguous batches starting in [first,last+1] with non-decreasing terms, overwrites only as real conflicts, received snapshots newer than the current one and never on a matching entry, local snapshots at indices of the log; indices <= 7, terms <= 3",
@@ -628,6 +640,7 @@ func main() {
 		"rule":                          "BFS over legal Storage call sequences on the real badgerWAL; after every call every live store of every group answers FirstIndex, LastIndex, Term(first-2..last+2), Entries(all lo<hi, 4 size limits), Snapshot, InitialState exactly as its own MemoryStorage; distinct = canonical (raw DB keys+values of the group, private cache contents)",
 		"per_phase":                     perPhase,
 		"on_disk_large_entry_queries":   diskEvals,
+		"long_log_queries":              longEvals,
 		"outcome_classes":               outcomes,
 		"samples":                       samples.List(),
 		"exhaustive":                    complete,
@@ -731,7 +744,106 @@ func onDiskLargeEntries(run *ev.Run) int {
 	return evals
 }
 
+// longLog is a directed phase beyond the BFS's indices <= 7: a log of 2500 entries, one compaction that has to drop 2100
+// of them, a conflicting overwrite that drops 300, a received snapshot beyond the end - each followed by a reopen (cold
+// cache) - with the store's answers compared at a spread of indices (whatever works in batches has its boundary there).
+func longLog(run *ev.Run, db *badger.DB) int {
+	gid := world.ID(0x10e6, 0x1122334455667788)
+	w := wal.NewBadgerWAL(db, gid)
+	ref := etcdRaft.NewMemoryStorage()
+	evals := 0
+	spots := func(when string) (string, string) {
+		rf, _ := ref.FirstIndex()
+		rl, _ := ref.LastIndex()
+		f, err := w.FirstIndex()
+		l, err2 := w.LastIndex()
+		evals += 2
+		if err != nil || err2 != nil || f != rf || l != rl {
+			return "firstindex", fmt.Sprintf("%s: first/last %d/%d (%v %v), reference %d/%d", when, f, l, err, err2, rf, rl)
+		}
+		for _, i := range []uint64{0, 1, 2, 100, 1023, 1024, 1025, 1026, 2047, 2048, 2049, rf - 2, rf - 1, rf, rf + 1, rl - 1, rl, rl + 1} {
+			if i > rl+1 {
+				continue
+			}
+			t, err := w.Term(i)
+			rt, rerr := ref.Term(i)
+			evals++
+			if t != rt || err != rerr {
+				return "term", fmt.Sprintf("%s: Term(%d)=%d,%v reference %d,%v (first=%d last=%d)", when, i, t, errStr(err), rt, errStr(rerr), rf, rl)
+			}
+			if i+2 <= rl+1 {
+				es, err := w.Entries(i, i+2, ^uint64(0))
+				res, rerr := ref.Entries(i, i+2, ^uint64(0))
+				evals++
+				if err != rerr || err == nil && !sameEntries(es, res) {
+					return "entries", fmt.Sprintf("%s: Entries(%d,%d) = %d entries,%v reference %d,%v", when, i, i+2, len(es), errStr(err), len(res), errStr(rerr))
+				}
+			}
+		}
+		return "", ""
+	}
+	both := func(when string) (string, string) {
+		if k, d := spots(when); k != "" {
+			return k, d
+		}
+		w = wal.NewBadgerWAL(db, gid)
+		return spots(when + ", store reopened")
+	}
+	fail := func(k, d string) int {
+		run.Violation(k+":long-log", d, map[string]interface{}{"directed": "long-log"})
+		return evals
+	}
+	for start := uint64(1); start <= 2500; start += 500 {
+		var es []raftpb.Entry
+		for i := start; i < start+500; i++ {
+			es = append(es, entry(i, 1))
+		}
+		if err := w.Save(raftpb.HardState{Term: 1, Vote: 1, Commit: start}, es, raftpb.Snapshot{}); err != nil {
+			return fail("save-error", err.Error())
+		}
+		ref.Append(es)
+	}
+	if k, d := both("2500 entries appended"); k != "" {
+		return fail(k, d)
+	}
+	if _, err := w.CreateSnapshot(2100, &confState, []byte("local2100")); err != nil {
+		return fail("create-snapshot-error", err.Error())
+	}
+	ref.CreateSnapshot(2100, &confState, []byte("local2100"))
+	ref.Compact(2100)
+	if k, d := both("CreateSnapshot(2100) on a log of 2500"); k != "" {
+		return fail(k, d)
+	}
+	over := []raftpb.Entry{entry(2201, 2), entry(2202, 2)}
+	if err := w.Save(raftpb.HardState{Term: 2, Vote: 1, Commit: 2200}, over, raftpb.Snapshot{}); err != nil {
+		return fail("save-error", err.Error())
+	}
+	ref.Append(over)
+	if k, d := both("conflicting overwrite at 2201 (drops 300 entries)"); k != "" {
+		return fail(k, d)
+	}
+	snap := raftpb.Snapshot{Data: []byte("recv3000"), Metadata: raftpb.SnapshotMetadata{Index: 3000, Term: 2, ConfState: confState}}
+	if err := w.Save(raftpb.HardState{Term: 2, Vote: 1, Commit: 3000}, nil, snap); err != nil {
+		return fail("save-error", err.Error())
+	}
+	ref.ApplySnapshot(snap)
+	if k, d := both("received snapshot at 3000"); k != "" {
+		return fail(k, d)
+	}
+	return evals
+}
+
 func replay(db *badger.DB, path string) {
+	if b, err := os.ReadFile(path); err == nil && bytes.Contains(b, []byte("long-log")) {
+		run := ev.Start("C06", "model_checking")
+		longLog(run, db)
+		if run.NewViolations() > 0 {
+			fmt.Printf("VIOLATION property=%s replay=%s\n  long-log\n", ev.As("C06"), path)
+			os.Exit(1)
+		}
+		fmt.Println("replay: property held")
+		return
+	}
 	if b, err := os.ReadFile(path); err == nil && bytes.Contains(b, []byte("on-disk-large-entries")) {
 		run := ev.Start("C06", "model_checking")
 		onDiskLargeEntries(run)
